@@ -56,6 +56,11 @@ CLAIMS = {
   'text': 'Partial, structural: the final with_precision_round in impl_inverse_uint_scale receives ctx.precision/ctx.rounding; because the implementation rounds |x| and re-signs, the extracted 21-cell (sign, mode) table must hand Ceiling for (Minus, Floor), Floor for (Minus, Ceiling) and the unchanged context otherwise - which is exactly the negation symmetry clause of the property. Convergence, termination and accuracy at small precisions are NOT decided.',
   'note': TRUST,
  },
+ 'C17': {
+  'technique': 'static analysis of the serde-json feature configuration: forbidden-callee reachability (no float), panic-site enumeration, sibling cross-check of the scale limit via provenance, structural forwarder check of Serialize',
+  'text': 'Partial, structural (feature configuration serde-json, which the pinned test run never compiles; thorough adds string-only): no float conversion/parse/cast is reachable from visit_str, visit_map or the two JSON-number adapters, so digits are read digit for digit; every may-panic site on those paths is discharged or reviewed; both JSON-number adapters compare the deserialised scale with the generated SERDE_SCALE_LIMIT; Serialize is collect_str(self) and the adapters serialise Number::from_str(Display text). Round-trip equality and the "00" zero are NOT decided.',
+  'note': TRUST + ' serde callbacks are modelled by a trampoline table (deserialize_any -> every Visitor method, next_value::<BigDecimal> -> Deserialize).',
+ },
 }
 _PENDING = 'check not built yet in this commit (implementation in progress, see DESIGN.md section 8)'
 NOT_APPLICABLE = {('C%02d' % i): _PENDING for i in range(1, 21) if ('C%02d' % i) not in CLAIMS}
